@@ -30,7 +30,7 @@ type scanner struct {
 }
 
 func (s *scanner) setPaging(query ast.Query) {
-	if query.GetSkip() == nil {
+	if query.GetSkip() == nil || *query.GetSkip() < 0 {
 		query.SetSkip(0)
 	}
 	s.targetOffset = *query.GetSkip()
